@@ -641,6 +641,39 @@ FirstChoices(route, d) == IF CartesianOnly(route, d) THEN { "conn", "lon", "lat"
 LaterFirst == << "conn", "lat", "xyz" >>          \* decoding 2 is read latitude first, decoding 3 Cartesian first
 Orders(m, route, d, first) == [ i \in 1..Len(Plan(m, route, d)) |-> ReadOrder(IF i = 1 THEN first ELSE LaterFirst[i]) ]
 
+\* READS IN BETWEEN.  A Grid is a lazily populated, caching object; what the source shipped (tables, centres, areas,
+\* distances: Carried) must still be what the Grid presents after ANY sequence of reads of its other public
+\* attributes.  The attribute list is taken from the Grid class by introspection when the case is replayed (a new
+\* property is included automatically); the specification fixes the ORDER as a descriptor over that list:
+\* position j of the sequence is attribute (start + j * step) mod N, reversed or not, every attribute once
+\* (the harness takes the next step coprime with N), followed by the public methods that compute what a source may
+\* ship (compute_face_areas).  Reads are observations: they have no action in the machine below, which is the
+\* statement that they change nothing - the carried values are judged again after them (CarriedStable).
+Sweeps == << [ kind |-> "sweep", start |-> 0, step |-> 1, reverse |-> FALSE ], [ kind |-> "sweep", start |-> 0, step |-> 1, reverse |-> TRUE ],
+             [ kind |-> "sweep", start |-> 17, step |-> 5, reverse |-> FALSE ], [ kind |-> "sweep", start |-> 40, step |-> 11, reverse |-> TRUE ] >>
+NoSweep == [ kind |-> "none" ]
+ShipsQuantities(c) == \E f \in { "face_areas", "centres", "edge_node_dist", "edge_face_dist" } : f \in DOMAIN c
+\* every order where values are shipped, on one slice of the knobs the order is independent of; one order (varying
+\* with mesh and knobs) elsewhere; on the routes with large lattices only where the tables are declared plainly
+AllOrdersSlice(route, d) ==
+    CASE route = "esmf"      -> d.store = "i32f64" /\ d.lon = "p360" /\ d.padv = "m1"
+      [] route = "mpas"      -> d.store = "i32f64" /\ d.xyz = "no"
+      [] route = "mpas_dual" -> d.store = "i32f64" /\ d.xyz = "no" /\ d.pad = "zeros"
+      [] route = "scrip"     -> d.ftype = "f64"
+      [] route = "geos"      -> d.ftype = "f64"
+      [] route = "icon"      -> TRUE
+      [] OTHER               -> FALSE
+SweptAtAll(route, d) ==
+    CASE route = "ugrid"    -> d.names = "arbitrary" /\ d.topo = "attr"
+      [] route = "topology" -> d.via = "classmethod"
+      [] OTHER              -> TRUE
+BetweenChoices(i, route, d) ==
+    LET c == Carried(MeshList[i], route, d)
+        pick == (i + (IF "lon" \in DOMAIN d /\ d.lon = "p360" THEN 1 ELSE 0) + (IF "start" \in DOMAIN d /\ d.start = "1" THEN 2 ELSE 0)) % 4
+    IN IF DOMAIN c = {} \/ ~SweptAtAll(route, d) THEN { NoSweep }
+       ELSE IF ShipsQuantities(c) /\ AllOrdersSlice(route, d) /\ ~MeshList[i].big THEN { Sweeps[j] : j \in 1..4 }
+       ELSE { Sweeps[pick + 1] }
+
 \* the two mechanisms.  "aliases" transcribes a decoder that converts a table already stored as the platform
 \* integer in place: afterwards the shared input holds zero-based indices and fill values.
 InPlace(T, dec) == [ r \in 1..Len(T) |-> [ j \in 1..Len(T[r]) |-> IF dec[r][j] = PAD THEN BIGFILL ELSE dec[r][j] ] ]
@@ -658,8 +691,9 @@ VARIABLES mi, route, d,
           nd,      \* number of decodings done
           inp,     \* what the shared input object holds now
           outs,    \* the decoded face tables so far
-          ro       \* which attribute of the first decoded Grid is read first
-vars == << mi, route, d, nd, inp, outs, ro >>
+          ro,      \* which attribute of the first decoded Grid is read first
+          bw       \* the reads of other attributes in between (a sweep descriptor)
+vars == << mi, route, d, nd, inp, outs, ro, bw >>
 NoD == [ none |-> TRUE ]
 
 M == MeshList[mi]
@@ -667,10 +701,11 @@ M == MeshList[mi]
 Init == /\ mi \in MeshSel
         /\ route \in (RouteSel \cup { "mesh" })
         /\ (route = "mesh" \/ Applies(MeshList[mi], route))
-        /\ d = NoD /\ nd = 0 /\ inp = NoD /\ outs = <<>> /\ ro = "-"
+        /\ d = NoD /\ nd = 0 /\ inp = NoD /\ outs = <<>> /\ ro = "-" /\ bw = NoSweep
 Choose == /\ d = NoD /\ route # "mesh"
           /\ d' \in DialectsFor(mi, route)
           /\ ro' \in FirstChoices(route, d')
+          /\ bw' \in BetweenChoices(mi, route, d')
           /\ inp' = StoredSrc(M, route, d')
           /\ UNCHANGED << mi, route, nd, outs >>
 DecodeStep == /\ d # NoD /\ nd < Len(Plan(M, route, d))
@@ -678,7 +713,7 @@ DecodeStep == /\ d # NoD /\ nd < Len(Plan(M, route, d))
                    /\ outs' = Append(outs, DecodeAs(inp, opt))       \* reads what the input holds NOW
                    /\ inp' = InputAfter(inp, opt)
               /\ nd' = nd + 1
-              /\ UNCHANGED << mi, route, d, ro >>
+              /\ UNCHANGED << mi, route, d, ro, bw >>
 Next == Choose \/ DecodeStep
 
 IsCase == d # NoD /\ nd = 0         \* the per-source theorems and the emission are evaluated once per source
@@ -775,7 +810,7 @@ EmitCase == IsCase =>
                         fe_slots |-> FaceEdgeSlots(route),
                         complete |-> Complete(M, route, d),
                         plan |-> Plan(M, route, d),
-                        first |-> ro,
+                        first |-> ro, between |-> bw,
                         orders |-> Orders(M, route, d, ro),
                         modes |-> [ i \in 1..Len(Plan(M, route, d)) |-> StepMode(route, Plan(M, route, d)[i]) ],
                         exps |-> [ i \in 1..Len(Plan(M, route, d)) |-> DecodeAs(StoredSrc(M, route, d), Plan(M, route, d)[i]) ],
